@@ -11,12 +11,16 @@ LEVEL = 'fault_enumeration'
 RULE = ('populations of trace shards (4-12 instances, some still scheduled; 0-9 events each with timestamps around '
         'now-expiry +-0.5/5 s, plus clearly old and clearly young ones), /finished records with mtimes around the expiry, '
         'server-trace events, batch sizes 1-7, history limits 1-4, pre-existing history snapshots produced by a first real '
-        'archiving pass. One archiving run = cleanup_trace, cleanup_finished, cleanup_server_trace, then the three '
-        'cleanup_*_history. It is run once un-cut to count its ZooKeeper writes W, then once per k in 1..W with the '
+        'archiving pass. One archiving run = one iteration of the real archiver service (treadmill.sproc.trace cleanup, '
+        'without the election lock, stopped at its sleep): pruning passes (limits too high to prune), cleanup_trace, '
+        'cleanup_finished (own expiry and history count), the history prunings, cleanup_server_trace. Event names carry '
+        'type/data as the product writes them. It is run once un-cut to count its ZooKeeper writes W, then once per k in 1..W with the '
         'fake client dying at write k (state restored from a snapshot; every write is a crash point). Oracle at every '
         'cut and at the end: every trace event / finished record / server event that was live before is live or is a row '
         'of some snapshot created so far (snapshots are decompressed and opened with sqlite; download_batch must return '
-        'the archived events of each instance); events of scheduled instances and events/records younger than the expiry '
+        'the archived events of each instance, and the reader of the product, AppTraceLoop._process_db_events must be handed '
+        'every archived event of an unscheduled instance that sits in a present snapshot - also when they sit in '
+        'non-adjacent snapshots); events of scheduled instances and events/records younger than the expiry '
         'are still live; nothing is archived in a short batch; history pruning removed only the oldest snapshot names and '
         'kept the newest max_count. Non-trivial: a cut strictly between the first and last write of a run that archived '
         '>= 1 batch; distinct by (case, k).')
